@@ -344,17 +344,87 @@ where
             }
         }
     });
+    // the initial step-size search (Algorithm 4 + the implementation's halving loop) with EVERY initial momentum of an
+    // alphabet forced through `nuts.init_momentum`: from starts next to the support boundary the unit trial step leaves
+    // the domain (NaN density and, for sqrt, NaN gradient). The search has no hook inside: a search that never ends is
+    // caught by the targets' evaluation budget (a legitimate search needs < 2^12 evaluations, the transition that
+    // follows at most 2^12 leaves).
+    let mut tg2 = tg.clone();
+    tg2.push((AnyGT::SqrtDom, vec![vec![0.3], vec![1e-3]], "SqrtDom(1)"));
+    tg2.push((AnyGT::NanPocket, vec![vec![0.9], vec![1.44]], "NanPocket(1)"));
+    let ma: Vec<f64> = if ctx.tier.thorough() { vec![-1e3, -3.0, -1.5, -0.6, -0.1, 0.1, 0.6, 1.5, 3.0, 1e3] } else { vec![-3.0, -1.5, -0.3, 0.3, 1.5, 3.0] };
+    let mut jobs2 = vec![];
+    for ti in 0..tg2.len() {
+        for si in 0..2 {
+            let d = tg2[ti].1[si].len();
+            for i in 0..ma.len().pow(d as u32) {
+                let mut k = i;
+                let m: Vec<f64> = (0..d).map(|_| { let v = ma[k % ma.len()]; k /= ma.len(); v }).collect();
+                jobs2.push((ti, si, m));
+            }
+        }
+    }
+    jobs2.par_iter().for_each(|(ti, si, m)| {
+        let (target, starts, tname) = (&tg2[*ti].0, &tg2[*ti].1, tg2[*ti].2);
+        let rt = gt_ref(target);
+        let f = |x: f64| T::from(x).unwrap();
+        let start = &starts[*si];
+        let case = json!({"sampler": "NUTS-search", "backend": name, "target": tname, "start": start, "init_momentum": m});
+        ctx.evals(1);
+        ctx.transitions(1);
+        let mut chain = NUTSChain::<T, B, AnyGT<T>>::new(target.clone(), start.iter().map(|x| f(*x)).collect(), f(0.8)).set_seed(3);
+        let (r, rec) = crate::props::nutsref::with_eval_budget(1 << 14, || {
+            record_with(Script { prefix: vec![], momenta: vec![], f32_scalar: f32b, inject: false, keep: Some(&["nuts.end", "nuts.init"]), max_leaves: 1 << 12, init_momentum: Some(m.clone()) }, || {
+                chain.run(2, 0);
+            })
+        });
+        match r {
+            Err(e) if e.contains("runaway tree") => {
+                ctx.outcome("NUTS-search: first transition cut off (more than 2^12 leapfrog steps)", 1);
+                ctx.cap(&format!("NUTS search case {tname} {start:?} {m:?}: first transition cut off"));
+            }
+            Err(e) if e.contains("runaway evaluations") => ctx.violation(Violation::new(
+                "C14:hang(NUTS step-size search)",
+                format!("the initial step-size search on {tname} from {start:?} with initial momentum {m:?} does not terminate (more than 2^14 target evaluations before the first transition ended)"),
+                case,
+            )),
+            Err(e) => ctx.violation(Violation::new("C14:panic(NUTS)", format!("NUTSChain::run panicked during the step-size search on {tname} from {start:?} (momentum {m:?}): {e}"), case)),
+            Ok(()) => {
+                let eps0 = rec.events.iter().find(|(l, _)| l == "nuts.init").map(|(_, e)| e[0]).unwrap_or(f64::NAN);
+                if !(eps0 > 0.0 && eps0.is_finite()) {
+                    ctx.violation(Violation::new("C14:search-step-size", format!("the step-size search on {tname} from {start:?} with momentum {m:?} ends with step size {eps0}"), case.clone()));
+                }
+                let start_r: Vec<f64> = start.iter().map(|x| if f32b { (*x as f32) as f64 } else { *x }).collect();
+                for (l, e) in rec.events.iter() {
+                    if l != "nuts.end" {
+                        continue;
+                    }
+                    let pos = e[5..].to_vec();
+                    let unchanged = pos.iter().map(|x| x.to_bits()).eq(start_r.iter().map(|x| x.to_bits()));
+                    let lp = (rt.f)(&pos);
+                    if !unchanged && !(lp.is_finite() && pos.iter().all(|x| x.is_finite())) {
+                        ctx.violation(Violation::new("C14:nuts-moved-to-bad-state", format!("after the step-size search NUTS moved from {start_r:?} to {pos:?} whose log-density is {lp} ({tname}, initial momentum {m:?})"), case.clone()));
+                    }
+                }
+                let (x1, _, lp1, _) = super::c04::leap_pub(&rt, &start_r, m, 1.0);
+                if !lp1.is_finite() || (rt.g)(&x1).iter().any(|v| !v.is_finite()) {
+                    ctx.outcome("NUTS-search: unit trial step leaves the domain", 1);
+                }
+                ctx.outcome("NUTS-search: completed", 1);
+            }
+        }
+    });
 }
 
 pub fn run(ctx: &Ctx) {
-    ctx.rule("invariant checked after EVERY transition of every explored execution: the new state is bit-identical to the previous one, or has finite coordinates and a finite log-density under the harness's own copy of the target. MH: 5 bounded-support / NaN-region targets x 12 starts x 17 scripted candidates (outside the support, on the boundary, +-inf, NaN, 1e308) x symmetric/asymmetric proposal x u in {1, 2 grid units, 1/2, 1-ulp}; HMC: targets {ln x, sqrt-domain, box, quartic, Student-t} x step sizes {0.1,1,10,1e10,1e30,MAX} x L {1,3} x momenta grid incl. +-1e3 x u {1e-30,1/2,1-ulp}, two consecutive steps, f32 and f64 backends; NUTS: E1 choice exploration (as C03) on {ln x, sqrt-domain, box, quartic, funnel} with step sizes up to overflow, deviation bound 1-3, plus whole runs (step-size search included) from starts next to the support boundary. states = distinct configurations; transitions = real transitions executed");
+    ctx.rule("invariant checked after EVERY transition of every explored execution: the new state is bit-identical to the previous one, or has finite coordinates and a finite log-density under the harness's own copy of the target. MH: 5 bounded-support / NaN-region targets x 12 starts x 17 scripted candidates (outside the support, on the boundary, +-inf, NaN, 1e308) x symmetric/asymmetric proposal x u in {1, 2 grid units, 1/2, 1-ulp}; HMC: targets {ln x, sqrt-domain, box, quartic, Student-t} x step sizes {0.1,1,10,1e10,1e30,MAX} x L {1,3} x momenta grid incl. +-1e3 x u {1e-30,1/2,1-ulp}, two consecutive steps, f32 and f64 backends; NUTS: E1 choice exploration (as C03) on {ln x, sqrt-domain, box, quartic, funnel} with step sizes up to overflow, deviation bound 1-3, plus whole runs (step-size search included) from starts next to the support boundary, plus the step-size search alone under EVERY initial momentum of {+-0.3,+-1.5,+-3}^d (thorough: 10 values incl. +-1e3) forced through the hook, non-termination caught by an evaluation budget inside the harness targets. states = distinct configurations; transitions = real transitions executed");
     mh_part(ctx);
     hmc_part::<f64, BF64>(ctx, "f64 / NdArray<f64>", false);
     hmc_part::<f32, BF32>(ctx, "f32 / NdArray<f32>", true);
     nuts_part::<f64, BF64>(ctx, "f64 / NdArray<f64>", false);
     nuts_part::<f32, BF32>(ctx, "f32 / NdArray<f32>", true);
     ctx.assume("acceptance draws equal to exactly 0 are excluded by the statement; a NUTS transition that needs more than 2^12 leapfrog steps in these configurations is reported as a hang");
-    for k in ["MH:stayed", "MH:moved-to-valid", "HMC:stayed", "HMC:moved-to-valid", "HMC:NaN-energy-candidate", "NUTS:stayed", "NUTS:moved-to-valid", "NUTS:NaN-joint-leaf"] {
+    for k in ["MH:stayed", "MH:moved-to-valid", "HMC:stayed", "HMC:moved-to-valid", "HMC:NaN-energy-candidate", "NUTS:stayed", "NUTS:moved-to-valid", "NUTS:NaN-joint-leaf", "NUTS-search: unit trial step leaves the domain", "NUTS-search: completed"] {
         if ctx.outcome_count(k) == 0 {
             ctx.machinery_error(format!("vacuity guard: outcome class '{k}' never observed"));
         }
